@@ -50,7 +50,7 @@ def run(chk, unit="asmjit/core/string.cpp", rule="R-ASSIGN-EMPTY-REPLACES"):
             if x.get("cvn") == "kOk":
                 return True
             if x["k"] == "cond":
-                return can_be_ok(x.get("then"), depth + 1) or can_be_ok(x.get("else"), depth + 1)
+                return can_be_ok(x.get("a"), depth + 1) or can_be_ok(x.get("b"), depth + 1)
             return False
         for b, idx, r in fn.return_sites():
             v = fn.e(r).get("val")
